@@ -321,13 +321,22 @@ class LocationTable:
 
         Temporarily solution following ETSI EN 302 636-4-1 V1.4.1 (2020-01). Section 8.1.3
         """
-        current_time = TST.set_in_normal_timestamp_seconds(
-            int(TimeService.time()))
+        current_time = TST.set_in_normal_timestamp_milliseconds(
+            int(TimeService.time() * 1000))
+        lifetime_ms = self.mib.itsGnLifetimeLocTE * 1000
+
+        def alive(entry: LocationTableEntry) -> bool:
+            if entry.ls_pending:
+                return True
+            age = current_time - entry.position_vector.tst  # modulo 2^32
+            if age >= 2**31:
+                # PV timestamp is ahead of the local clock (sender's clock runs ahead): not expired
+                return True
+            return age <= lifetime_ms
+
         with self.loc_t_lock:
             self.loc_t = {
-                gn: entry for gn, entry in self.loc_t.items()
-                if entry.ls_pending
-                or (current_time - entry.position_vector.tst) <= self.mib.itsGnLifetimeLocTE * 1000
+                gn: entry for gn, entry in self.loc_t.items() if alive(entry)
             }
 
     def new_shb_packet(
